@@ -1956,7 +1956,7 @@ def without(sh, tag):
         return map_tree(sh, lambda n: n[:3] + ["0", n[4]] if (is_node(n, {"r"}) and len(n) == 5 and n[4] is not None and n[4][0] == "f" and n[3] == "") else n)
     if kind == "mat-plain-after-lib":
         zs = sorted(sh[4], key=lambda z: z[1])
-        zs = [z[:5] + [z[5] or ["sp", 0]] for z in zs]
+        zs = [z[:3] + [["sp", 0], z[4], ["sp", 0]] for z in zs]      # the order changes: plain layout
         if not sh[5]:
             zs[-1] = zs[-1][:5] + [None]
         return sh[:4] + [zs] + sh[5:]
